@@ -336,7 +336,11 @@ def step(toks, ann):
                 elif buf == 'shared':
                     data = shared_buf(data)
                 out = d.decode(data, raw=(toks[2] == '1'))
-                return 'ok ' + show_headers(out) + ' | ' + show_dec(d)
+                shown = show_headers(out)
+                # the returned list belongs to the caller: an application may extend or empty it in place
+                if isinstance(out, list):
+                    out.append(('x-verif-poison', 'appended by the caller')); out.reverse(); del out[1:]
+                return 'ok ' + shown + ' | ' + show_dec(d)
             if op == 'dtrace':
                 return 'trace-unsupported'
             return 'ok | ' + show_dec(d)
